@@ -7,6 +7,8 @@ pub mod ledger;
 pub mod plans;
 pub mod rng;
 pub mod runner;
+pub mod savesim;
+pub mod twin;
 pub mod util;
 pub mod wcase;
 pub mod wengine;
@@ -20,7 +22,7 @@ pub mod wscript;
 pub mod wstorage;
 
 pub fn all_engines() -> Vec<Box<dyn engine::Engine>> {
-    vec![Box::new(wengine::WorldSim), Box::new(joinsim::JoinSim), Box::new(dispatchsim::DispatchSim)]
+    vec![Box::new(wengine::WorldSim), Box::new(joinsim::JoinSim), Box::new(dispatchsim::DispatchSim), Box::new(savesim::SaveSim), Box::new(twin::Twin)]
 }
 
 fn usage() -> i32 {
@@ -52,6 +54,11 @@ fn main() {
             }
         }
         Some("explore") if args.len() >= 4 => explore(&args[1..]),
+        Some("twinhash") if args.len() >= 3 => {
+            let (t, _, _) = twin::transcript(&args[1], args[2].parse().unwrap_or(0));
+            println!("{}", t);
+            0
+        }
         Some("selftest") => plans::selftest(args.get(1).and_then(|s| s.parse().ok()).unwrap_or(2000)),
         _ => usage(),
     };
